@@ -30,7 +30,7 @@ def gen(rng, n, tier):
 register(PropSpec(
     "C05",
     engines=[EngineSpec("exec", gen, mon_exec.mon_c05, mon_exec.tags_c05, quick_n=260, thorough_n=6000, mask=mon_exec.mask_unmodelled)],
-    facts=["txFsm", "receipt2Event"],
+    facts=["txFsm", "receipt2Event", "multiChildCount"],
     rule="exec engine, group focus: one-to-many requests with 1-3 declared children over one or several destination chains (4 chains, 7 services, "
          "an unordered service, a chain whose rule rejects), children begun in any order / twice / never, success and failure receipts in any order, "
          "duplicate, late and unknown reports, group timeouts 0/2/3/4/10, mixed with one-to-one traffic; a protocol monitor written from the property text "
